@@ -31,7 +31,8 @@ class TinyNet(torch.nn.Module):
 
 # names that are legal attribute names / dict keys for the property
 NAME_POOL = ["a", "b", "c", "data", "w", "x1", "_p", "with space", "dot.ted", "ünï", "k9", "12", "Cap", "__dd", "a-b", "q'uote"]
-NASTY_NAMES = ["with space", "dot.ted", "ünï中", "12", "_private", "__dunder", "UPPER", "a-b", "q'uo\"te", "tab\there"]
+NASTY_NAMES = ["with space", "dot.ted", "ünï中", "12", "_private", "__dunder", "UPPER", "a-b", "q'uo\"te", "tab\there",
+               ".tif", "..x", "trail.", "c", "0.0", "L" * 200, "x:y", "*"]
 
 ARRAY_DTYPES = ["bool", "int8", "uint8", "int16", "uint16", "int32", "uint32", "int64", "uint64", "float16", "float32", "float64", "complex64", "complex128", "U", "S", "M8[ns]", "M8[D]", "m8[ms]", "struct"]
 ARRAY_SHAPES = ["0d", "e1", "e3", "1d", "2d", "3d", "4d", "nc", "F"]
@@ -361,6 +362,11 @@ def _kinds():
     add("obj:empty", lambda r: _sg().Node(), "h")
     add("obj:withinit", lambda r: _sg().WithInit(int(r.integers(9)), "b"), "h")
     add("obj:nested2", lambda r: _nested2(r), "h")
+    # attrs-defined / dataclass AutoSerialize classes with nested attrs-defined objects in fields and in containers
+    add("obj:attrs_outer", lambda r: _sg().make_attrs_object(r, "outer"))
+    add("obj:attrs_inner", lambda r: _sg().make_attrs_object(r, "inner"))
+    add("obj:attrs_postinit", lambda r: _sg().make_attrs_object(r, "postinit"))
+    add("obj:dataclass", lambda r: _sg().make_attrs_object(r, "dataclass"))
     add("rng:pcg64", lambda r: np.random.default_rng(int(r.integers(1 << 30))))
     add("rng:mt19937", lambda r: np.random.Generator(np.random.MT19937(int(r.integers(1 << 30)))))
     add("rng:philox", lambda r: np.random.Generator(np.random.Philox(int(r.integers(1 << 30)))))
@@ -430,6 +436,16 @@ def _kinds():
     add("dict:nested", lambda r: {"d": {"e": {"f": [1, 2, {"g": "h"}]}}, "arr": make_array(r, "float64", "2d"), "t": make_tensor(r, "float32")})
     add("dict:objects", lambda r: {"o1": make_leaf(r), "o2": make_leaf(r, _sg().Other)})
     add("dict:digitkeys", lambda r: {"0": "a", "1": "b", "2": 3})
+    # hostile key spellings carrying values that are stored as zarr nodes (arrays, tensors, containers, objects), not only scalars
+    add("dict:dot_keys", lambda r: {".tif": make_array(r, "int16", "1d"), ".h5": {"x": 1, ".in": make_array(r, "uint8", "1d")}, "..x": [1, "a"], ".t": make_tensor(r, "float32"),
+                                    ".o": make_leaf(r), ".s": 5, "...": (1, "t")})
+    add("dict:underscore_and_trailing_dot", lambda r: {"_u": make_array(r, "float32", "2d"), "__dd": [1, "a"], "t.": make_leaf(r), "t..": make_tensor(r, "int64"), "a.b.": {"k": make_array(r, "bool", "1d")}})
+    add("dict:zarrish_keys", lambda r: {"c": make_array(r, "float64", "2d"), "0": [1, "a"], "0.0": make_array(r, "int8", "1d"), "c.0": make_leaf(r), "values": make_tensor(r, "float32"),
+                                        "tensor": [2, "b"], "module": make_array(r, "int32", "1d"), "zarr": {"json": 1}})
+    add("dict:case_keys", lambda r: {"Key": make_array(r, "int16", "1d"), "key": make_array(r, "int16", "2d"), "KEY": [1, "a"], "kEy": make_leaf(r), "keY": 3})
+    add("dict:long_keys", lambda r: {"L" * 200: make_array(r, "int8", "1d"), "M" * 250: [1, "a"], "\u00e9" * 100: make_leaf(r), "N" * 120 + ".x": make_tensor(r, "float32")})
+    add("dict:odd_punctuation_keys", lambda r: {"~x": make_array(r, "int8", "1d"), "-x": [1, "a"], "x%y": make_leaf(r), "x:y": make_tensor(r, "float32"), "*": make_array(r, "bool", "1d"),
+                                                "?q": {"k": 1}, "[b]": (1, "t"), "a b ": [2, "c"], " lead": make_array(r, "uint8", "1d")})
     add("set:ints", lambda r: set(int(x) for x in r.integers(-50, 50, size=4)) | {7})
     add("set:floats", lambda r: {1.5, 2.5, float("inf")})
     add("set:strings", lambda r: {"a", "b", "hé"})
